@@ -285,6 +285,7 @@ fn gen_orient(src: &mut Src) -> Orient {
 }
 pub fn gen_lib(src: &mut Src) -> HLib {
     let ns = src.usize_in(1, 5);
+    let name_style = src.weighted(&[6, 1, 1]);
     let mut structs: Vec<HStruct> = vec![];
     for si in 0..ns {
         let nshapes = src.usize_in(if si == 0 { 1 } else { 0 }, 4);
@@ -386,7 +387,13 @@ pub fn gen_lib(src: &mut Src) -> HLib {
         let total = shapes.len() + labels.len() + refs.len();
         let mut order: Vec<usize> = (0..total).collect();
         src.shuffle(&mut order);
-        structs.push(HStruct { name: format!("S{}", si), shapes, labels, refs, order });
+        // struct names are case-sensitive (`S0` and `s0` are two structs) and need not be short
+        let name = match name_style {
+            0 => format!("S{}", si),
+            1 => if si % 2 == 1 { format!("s{}", si - 1) } else { format!("S{}", si) },
+            _ => format!("S{}_sky130_fd_sc_hd__lpflow_inputisolatch_1", si),
+        };
+        structs.push(HStruct { name, shapes, labels, refs, order });
     }
     let mut listing: Vec<usize> = (0..ns).collect();
     src.shuffle(&mut listing);
